@@ -347,8 +347,24 @@ impl<'p> ThunkData<'p> {
         }
         match *state {
             ThunkState::Done(ref value) => ThunkState::Done(value.clone()),
-            ThunkState::Pending(_) => std::mem::replace(&mut *state, ThunkState::InProgress),
-            ThunkState::InProgress => ThunkState::InProgress,
+            ThunkState::Pending(ref pending) => {
+                // Keep the pending data while the thunk is being evaluated, so
+                // that it can be restored if the evaluation fails.
+                let pending = pending.clone();
+                std::mem::replace(&mut *state, ThunkState::InProgress(pending))
+            }
+            ThunkState::InProgress(ref pending) => ThunkState::InProgress(pending.clone()),
+        }
+    }
+
+    /// Puts a thunk whose evaluation was interrupted by an error back to
+    /// its pending state, so that evaluating it again reports the same error
+    /// instead of an infinite recursion.
+    pub(super) fn restore_pending(&self) {
+        let mut state = self.state.borrow_mut();
+        if let ThunkState::InProgress(ref pending) = *state {
+            let pending = pending.clone();
+            *state = ThunkState::Pending(pending);
         }
     }
 
@@ -363,7 +379,7 @@ impl<'p> ThunkData<'p> {
                 was: code,
             });
         }
-        assert!(matches!(*state, ThunkState::InProgress));
+        assert!(matches!(*state, ThunkState::InProgress(_)));
         *state = ThunkState::Done(value);
     }
 
@@ -379,7 +395,7 @@ impl<'p> ThunkData<'p> {
 pub(super) enum ThunkState<'p> {
     Done(ValueData<'p>),
     Pending(PendingThunk<'p>),
-    InProgress,
+    InProgress(PendingThunk<'p>),
 }
 
 #[cfg(rsjsonnet_verif)]
@@ -388,7 +404,7 @@ impl ThunkState<'_> {
     fn verif_code(&self) -> u8 {
         match self {
             Self::Pending(_) => 0,
-            Self::InProgress => 1,
+            Self::InProgress(_) => 1,
             Self::Done(_) => 2,
         }
     }
@@ -409,11 +425,12 @@ impl GcTrace for ThunkState<'_> {
         match self {
             Self::Done(value) => value.trace(ctx),
             Self::Pending(pending) => pending.trace(ctx),
-            Self::InProgress => {}
+            Self::InProgress(pending) => pending.trace(ctx),
         }
     }
 }
 
+#[derive(Clone)]
 pub(super) enum PendingThunk<'p> {
     Expr {
         expr: &'p ir::Expr<'p>,
